@@ -99,7 +99,7 @@ func checkC18(w *World, r *Report) {
 		var bad []string
 		for _, c := range []struct {
 			mn, mx, n int64
-			err     bool
+			err       bool
 		}{{2, 4, 2, false}, {2, 4, 1, true}, {2, 4, 4, false}, {2, 4, 5, true}, {0, -1, 1000, false}, {3, -1, 2, true}} {
 			got, why := c18CardinalityVerdict(w, c.mn, c.mx, c.n)
 			if why != "" {
